@@ -242,14 +242,19 @@ class sptensor:
         nonzeros = int(nonzeros)
 
         # Keep iterating until we find enough unique nonzeros or we give up
-        subs = np.array([])
+        subs = np.empty((0, len(shape)), dtype=int)
+        pooled_subs = subs
         cnt = 0
         while (len(subs) < nonzeros) and (cnt < 10):
             subs = (
                 np.random.uniform(size=[nonzeros, len(shape)]).dot(np.diag(shape))
             ).astype(int)
             subs = np.unique(subs, axis=0)
+            pooled_subs = np.unique(np.vstack((pooled_subs, subs)), axis=0)
             cnt += 1
+        if len(subs) < nonzeros:
+            # No single draw had enough distinct subscripts: pool all the draws
+            subs = pooled_subs
 
         nonzeros = int(min(nonzeros, subs.shape[0]))
         subs = subs[0:nonzeros, :]
